@@ -9,6 +9,7 @@ use vf_explore::Chooser;
 
 /// Largest branching factor the harness accepts at a single decision.
 pub const MAX_RANGE: u128 = 4096;
+pub const MAX_DECISIONS_PER_EXECUTION: usize = 20_000;
 
 pub fn machinery(msg: &str) -> ! {
     println!("MACHINERY-ERROR: {msg}");
@@ -78,6 +79,7 @@ pub struct RecDriver {
     pub ch: Chooser,
     /// when set, choices come from here instead of `ch`
     pub tol: Option<TolChooser>,
+    decisions: usize,
     depth: usize,
     /// true: every decision is a costly deviation point (deviation-bounded exploration);
     /// false: decisions are free (plain exhaustive DFS, same tree).
@@ -86,7 +88,7 @@ pub struct RecDriver {
 
 impl RecDriver {
     pub fn new(ch: Chooser) -> Self {
-        RecDriver { ch, tol: None, depth: 0, costly: true }
+        RecDriver { ch, tol: None, decisions: 0, depth: 0, costly: true }
     }
     pub fn replay(prefix: Vec<usize>) -> Self {
         Self::new(Chooser::replay(prefix))
@@ -106,6 +108,15 @@ impl RecDriver {
     fn pick(&mut self, lo: i128, hi: i128) -> Option<i128> {
         if hi < lo {
             return None;
+        }
+        // No corpus execution needs more than a few dozen decisions. Far beyond that the simulator
+        // is scheduling ticks without end (only possible if ticks stop consuming input). The
+        // calling frames belong to the simulator dylib, so unwinding is not an option: say why
+        // and end the (child) process.
+        self.decisions += 1;
+        if self.decisions > MAX_DECISIONS_PER_EXECUTION {
+            eprintln!("VF-LIVELOCK: more than {MAX_DECISIONS_PER_EXECUTION} simulator decisions in one execution; last decisions (alternatives, chosen): {:?}", self.log().iter().rev().take(6).collect::<Vec<_>>());
+            std::process::abort();
         }
         let n = (hi - lo) as u128 + 1;
         if n > MAX_RANGE {
